@@ -22,6 +22,29 @@ func c31Word(r *rand.Rand) string {
 	return w[r.Intn(len(w))]
 }
 
+// c31Regex returns a pattern that matches text and one that does not, in varied spellings:
+// anchored, unanchored, made of backslash classes / escapes only, and plain literals
+func c31Regex(r *rand.Rand, text string) (hold, fail string) {
+	text = strings.TrimSuffix(text, "\n")
+	holds := []string{"^.+", "\\S", "\\S\\S", fmt.Sprintf("\\x%02x", text[0]), fmt.Sprintf("\\x%02x\\x%02x", text[0], text[1])}
+	// a plain literal: the leading letters / digits of the text
+	lit := ""
+	for _, c := range text {
+		if !(c >= 'a' && c <= 'z' || c >= 'A' && c <= 'Z' || c >= '0' && c <= '9') {
+			break
+		}
+		lit += string(c)
+	}
+	if lit != "" {
+		holds = append(holds, lit)
+	}
+	if strings.ContainsAny(text, "0123456789") {
+		holds = append(holds, "\\d")
+	}
+	fails := []string{"^never-matches-[0-9]{9}$", "\\x00", "\\t\\t\\t", "neverappears9z9z", "\\d\\d\\d\\d\\d\\d", "\\x00\\w"}
+	return holds[r.Intn(len(holds))], fails[r.Intn(len(fails))]
+}
+
 // c31Case builds one function + plan; force: "" (random mix), or the name of the single assertion to fail / "none"
 func c31Case(r *rand.Rand, fname string, mode string) (block string, e c31Expect) {
 	// function behaviour
@@ -88,7 +111,9 @@ func c31Case(r *rand.Rand, fname string, mode string) (block string, e c31Expect
 		cands = append(cands, cand{"StdoutMatch", "\"StdoutMatch\": " + js(stdout), "\"StdoutMatch\": " + js(stdout+"x")})
 	}
 	rxHold, rxFail := "^.+", "^never-matches-[0-9]{9}$"
-	if kind == "text" {
+	if kind != "empty" && r.Intn(3) > 0 {
+		rxHold, rxFail = c31Regex(r, stdout)
+	} else if kind == "text" {
 		rxHold = "^" + strings.NewReplacer(".", "\\.", "!", "!").Replace(strings.TrimSuffix(stdout, "\n")) + "\\n$"
 	}
 	wrongType := map[string]string{"str": "json", "json": "str", "*": "json"}[stdoutType]
@@ -132,11 +157,14 @@ func c31Case(r *rand.Rand, fname string, mode string) (block string, e c31Expect
 	}
 	if stderr != "" {
 		cands = append(cands, cand{"StderrMatch", "\"StderrMatch\": " + js(stderr), "\"StderrMatch\": " + js(stderr+"z")})
-		rx := "^[a-zA-Z0-9]"
+		rx, rxf := "^[a-zA-Z0-9]", "^never-[0-9]{7}$"
 		if stderrKind != "none" {
 			rx = "^[\\[{]"
 		}
-		cands = append(cands, cand{"StderrRegex", "\"StderrRegex\": " + js(rx), "\"StderrRegex\": " + js("^never-[0-9]{7}$")})
+		if r.Intn(3) > 0 {
+			rx, rxf = c31Regex(r, stderr)
+		}
+		cands = append(cands, cand{"StderrRegex", "\"StderrRegex\": " + js(rx), "\"StderrRegex\": " + js(rxf)})
 	} else {
 		cands = append(cands, cand{"StderrRegex", "\"StderrRegex\": \"^$\"", "\"StderrRegex\": \"^something$\""})
 		cands = append(cands, cand{"StderrMatch", "", "\"StderrMatch\": \"unexpected\""})
@@ -203,7 +231,7 @@ func init() {
 	register(&Property{
 		ID:    "C31",
 		Level: "exploration",
-		Rule: "generated functions with fixed stdout (text, JSON array or JSON map), optional stderr and exit number 0/1, paired with plans combining ExitNum, StdoutMatch, StdoutRegex, StdoutType, StdoutIsArray, StdoutIsMap, StdoutGreaterThan, StderrMatch, StderrRegex, StderrIsArray, StderrIsMap (stderr written as text or as a JSON array / map through a redirection), each assertion chosen to hold or to fail: every single-assertion-failing plan, all-holding plans, and PRNG mixes; defined with `test unit function` and executed with `test run`; " +
+		Rule: "generated functions with fixed stdout (text, JSON array or JSON map), optional stderr and exit number 0/1, paired with plans combining ExitNum, StdoutMatch, StdoutRegex, StdoutType, StdoutIsArray, StdoutIsMap, StdoutGreaterThan, StderrMatch, StderrRegex, StderrIsArray, StderrIsMap (stderr written as text or as a JSON array / map through a redirection), (the regular expressions in varied spellings: anchored, unanchored, backslash classes / escapes only such as `\\S`, `\\x41`, `\\d`, and plain literals), each assertion chosen to hold or to fail: every single-assertion-failing plan, all-holding plans, and PRNG mixes; defined with `test unit function` and executed with `test run`; " +
 			"oracle: passed (exit number 0 of `test run`) iff every assertion of the plan holds; non-trivial = the plan has >= 2 assertions; distinct by (function body, plan)",
 		Assumptions: []string{"an absent ExitNum means 0 and an absent StderrMatch means `stderr must be empty` unless StderrRegex is given (relied on by the repo's behavioural plans); every function that writes to stderr carries an explicit stderr assertion", "StdoutGreaterThan N is only used with lengths strictly above or strictly below N (the code accepts length == N)", "tested functions do not use `return` (a `return` inside a unit-tested function terminates the block that called `test run`: recorded as an observation in DESIGN.md)"},
 		Run: func(x *Ctx) {
